@@ -159,20 +159,20 @@ Definition s_repo_id : str := [114;101;112;111;95;105;100]%N.
 Definition s_use : str := [117;115;101]%N.
 Definition s_iuse_stripped : str := [105;117;115;101;95;115;116;114;105;112;112;101;100]%N.
 
-Definition mk_exact (e : str) (cs neg : bool) : restr := RExact (if cs then e else lower e) cs neg false.
-Definition mk_glob (g : str) (cs prefix neg : bool) : restr :=
-  RGlob (if cs then g else lower g) prefix neg (negb cs) false.
-Definition mk_regex (re : str) (cs ismatch neg : bool) : restr := RRegex re neg (negb cs) ismatch false.
+Definition mk_exact (e : str) (cs neg h : bool) : restr := RExact (if cs then e else lower e) cs neg h.
+Definition mk_glob (g : str) (cs prefix neg h : bool) : restr :=
+  RGlob (if cs then g else lower g) prefix neg (negb cs) h.
+Definition mk_regex (re : str) (cs ismatch neg h : bool) : restr := RRegex re neg (negb cs) ismatch h.
 Definition mk_versionmatch (op : str) (v : str) (r : option N) (neg : bool) : option restr :=
   match vm_of_text op with
   | Some (d, vals) => Some (RAttr 1 neg [s_fullver] (RVer d v r neg vals))
   | None => None
   end.
-Definition mk_slotdep (s : str) (neg : bool) := RAttr 2 neg [s_slot] (mk_exact s true false).
-Definition mk_subslotdep (s : str) (neg : bool) := RAttr 3 neg [s_subslot] (mk_exact s true false).
-Definition mk_categorydep (s : str) (neg : bool) := RAttr 4 false [s_category] (mk_exact s true neg).
-Definition mk_packagedep (s : str) (neg : bool) := RAttr 5 false [s_package] (mk_exact s true neg).
-Definition mk_repositorydep (s : str) (neg : bool) := RAttr 6 neg [s_repo; s_repo_id] (mk_exact s true false).
+Definition mk_slotdep (s : str) (neg h : bool) := RAttr 2 neg [s_slot] (mk_exact s true false h).
+Definition mk_subslotdep (s : str) (neg h : bool) := RAttr 3 neg [s_subslot] (mk_exact s true false h).
+Definition mk_categorydep (s : str) (neg h : bool) := RAttr 4 false [s_category] (mk_exact s true neg h).
+Definition mk_packagedep (s : str) (neg h : bool) := RAttr 5 false [s_package] (mk_exact s true neg h).
+Definition mk_repositorydep (s : str) (neg h : bool) := RAttr 6 neg [s_repo; s_repo_id] (mk_exact s true false h).
 Definition always_true_oid : N := 1%N.       (* values.AlwaysTrue, a module level singleton *)
 Definition use_payload (mk : list str -> bool -> restr) (false_use true_use : list str) : restr :=
   match nonempty false_use, nonempty true_use with
@@ -212,12 +212,12 @@ Definition parse_nontransitive_use (use : list str) : list restr :=
 (* atom.restrictions *)
 Definition s_eqstar : str := [61;42]%N.
 Definition atom_restrictions (a : atomrec) : list restr :=
-  (match a_repo a with Some r => [mk_repositorydep r false] | None => [] end)
-  ++ [mk_packagedep (a_pkg a) false; mk_categorydep (a_cat a) false]
+  (match a_repo a with Some r => [mk_repositorydep r false false] | None => [] end)
+  ++ [mk_packagedep (a_pkg a) false false; mk_categorydep (a_cat a) false false]
   ++ (match a_fullver a with
       | None => []
       | Some fv =>
-          if str_eqb (a_op a) s_eqstar then [RAttr 0 false [s_fullver] (mk_glob fv true true false)]
+          if str_eqb (a_op a) s_eqstar then [RAttr 0 false [s_fullver] (mk_glob fv true true false true)]
           else match mk_versionmatch (a_op a) (match a_ver a with Some v => v | None => [] end)
                                      (a_rev a) (a_negate_vers a) with
                | Some r => [r]
@@ -226,8 +226,8 @@ Definition atom_restrictions (a : atomrec) : list restr :=
       end)
   ++ (match a_slot a with
       | None => []
-      | Some s => mk_slotdep s false
-                  :: match a_subslot a with Some ss => [mk_subslotdep ss false] | None => [] end
+      | Some s => mk_slotdep s false false
+                  :: match a_subslot a with Some ss => [mk_subslotdep ss false false] | None => [] end
       end)
   ++ (match a_use a with Some u => parse_nontransitive_use u | None => [] end).
 
@@ -329,6 +329,22 @@ Definition atom_eq (a b : atomrec) : bool :=
   && optstr_eqb (a_slotop a) (a_slotop b) && optstr_eqb (a_repo a) (a_repo b).
 Definition atom_hk (a b : atomrec) : bool := str_eqb (a_text a) (a_text b).     (* hash(orig_atom) *)
 
+Section All2.
+  Context {A : Type}.
+  Variable f : A -> A -> bool.
+  Fixpoint list_all2 (l1 l2 : list A) {struct l1} : bool :=
+    match l1, l2 with
+    | [], [] => true
+    | x :: l1', y :: l2' => f x y && list_all2 l1' l2'
+    | _, _ => false
+    end.
+  Fixpoint any2 (l1 l2 : list A) {struct l1} : bool :=
+    match l1, l2 with
+    | x :: l1', y :: l2' => f x y || any2 l1' l2'
+    | _, _ => false
+    end.
+End All2.
+
 Section Cmp.
   Variable c : cfg.
 
@@ -347,43 +363,27 @@ Section Cmp.
         (* same attribute names (_hash, vals, all, negate); the repaired class adds if_missing / another _hash *)
         negb (udc_keyed c) && set_eqb v1 v2 && a1 && Bool.eqb n1 n2
     | RVer d1 v1 r1 n1 l1, RVer d2 v2 r2 n2 l2 => ver_eq d1 v1 r1 n1 l1 d2 v2 r2 n2 l2
-    | RAlways o1 _, RAlways o2 _ => N.eqb o1 o2
-    | RNegate o1 _, RNegate o2 _ => N.eqb o1 o2
+    (* identity equality: `a is b`; the same object has the same content, so on well-formed inputs (equal
+       ids only for one and the same object) comparing the content as well changes nothing *)
+    | RAlways o1 b1, RAlways o2 b2 => N.eqb o1 o2 && Bool.eqb b1 b2
+    | RNegate o1 r1, RNegate o2 r2 => N.eqb o1 o2 && cmpr hm r1 r2
     | RNode k1 t1 n1 cs1, RNode k2 t2 n2 cs2 =>
         kind_eqb k1 k2 && N.eqb t1 t2 && Bool.eqb n1 n2
-        && (fix go (l1 l2 : list restr) {struct l1} : bool :=
-              match l1, l2 with
-              | [], [] => true
-              | x :: l1', y :: l2' => cmpr hm x y && go l1' l2'
-              | _, _ => false
-              end) cs1 cs2
+        && list_all2 (fun x y => cmpr hm x y) cs1 cs2
     | RAttr k1 n1 at1 r1, RAttr k2 n2 at2 r2 =>
         (hm || N.eqb k1 k2) && Bool.eqb n1 n2 && lstr_eqb at1 at2 && cmpr hm r1 r2
     | RMulti k1 n1 at1 r1, RMulti k2 n2 at2 r2 =>
         (hm || N.eqb k1 k2) && Bool.eqb n1 n2 && llstr_eqb at1 at2 && cmpr hm r1 r2
     | RCond n1 at1 r1 p1, RCond n2 at2 r2 p2 =>
         Bool.eqb n1 n2 && lstr_eqb at1 at2 && cmpr hm r1 r2
-        && (fix go (l1 l2 : list restr) {struct l1} : bool :=
-              match l1, l2 with
-              | [], [] => true
-              | x :: l1', y :: l2' => cmpr hm x y && go l1' l2'
-              | _, _ => false
-              end) p1 p2
+        && list_all2 (fun x y => cmpr hm x y) p1 p2
     | RAtom x, RAtom y => if hm then atom_hk x y else atom_eq x y
     | RDepSet cs1, RDepSet cs2 =>
         (* set(self.restrictions) == set(other.restrictions): membership = same hash and == ;
            repaired hash: hash(frozenset(self.restrictions)) *)
         let inn (x y : restr) := if hm then cmpr true x y else cmpr true x y && cmpr false x y in
-        (fix sub (l1 : list restr) : bool :=
-           match l1 with
-           | [] => true
-           | x :: l1' => existsb (fun y => inn x y) cs2 && sub l1'
-           end) cs1
-        && forallb (fun y => (fix ex (l1 : list restr) : bool :=
-                                match l1 with
-                                | [] => false
-                                | x :: l1' => inn x y || ex l1'
-                                end) cs1) cs2
+        forallb (fun x => existsb (fun y => inn x y) cs2) cs1
+        && forallb (fun y => existsb (fun x => inn x y) cs1) cs2
     | _, _ => false
     end.
 End Cmp.
@@ -392,12 +392,6 @@ Definition r_eq (c : cfg) := cmpr c false.
 Definition hk_eq (c : cfg) := cmpr c true.
 
 (* pinned DepSet.__hash__ = boolean.base.__hash__: (class, negate, type, restrictions) as an ordered tuple *)
-Fixpoint list_all2 {A} (f : A -> A -> bool) (l1 l2 : list A) : bool :=
-  match l1, l2 with
-  | [], [] => true
-  | x :: l1', y :: l2' => f x y && list_all2 f l1' l2'
-  | _, _ => false
-  end.
 Definition depset_hk_orig (c : cfg) (cs1 cs2 : list restr) : bool := list_all2 (hk_eq c) cs1 cs2.
 
 (* ------------------------------------------------------------------ known classes (decidable) *)
@@ -414,28 +408,17 @@ Section Known.
     match a, b with
     | RUdc _ _ _, RUdc _ _ _ | RUdc _ _ _, RCont _ _ _ | RCont _ _ _, RUdc _ _ _ => negb (udc_keyed c)
     | RNode _ _ _ cs1, RNode _ _ _ cs2 =>
-        (fix go (l1 l2 : list restr) {struct l1} : bool :=
-           match l1, l2 with
-           | x :: l1', y :: l2' => known x y || go l1' l2'
-           | _, _ => false
-           end) cs1 cs2
+        any2 (fun x y => known x y) cs1 cs2
+    | RNegate _ r1, RNegate _ r2 => known r1 r2
     | RAttr _ _ _ r1, RAttr _ _ _ r2 => known r1 r2
     | RMulti _ _ _ r1, RMulti _ _ _ r2 => known r1 r2
     | RCond _ _ r1 p1, RCond _ _ r2 p2 =>
         known r1 r2
-        || (fix go (l1 l2 : list restr) {struct l1} : bool :=
-              match l1, l2 with
-              | x :: l1', y :: l2' => known x y || go l1' l2'
-              | _, _ => false
-              end) p1 p2
+        || any2 (fun x y => known x y) p1 p2
     | RAtom x, RAtom y =>
         hm && negb (str_eqb (a_text x) (a_text y))
     | RDepSet cs1, RDepSet cs2 =>
-        (fix ex1 (l1 : list restr) : bool :=
-           match l1 with
-           | [] => false
-           | x :: l1' => existsb (fun y => known x y) cs2 || ex1 l1'
-           end) cs1
+        existsb (fun x => existsb (fun y => known x y) cs2) cs1
     | _, _ => false
     end.
 End Known.
@@ -443,10 +426,13 @@ End Known.
 (* ------------------------------------------------------------------ encoders for the harness *)
 Definition VBs (l : list bool) : val := VL (map VB l).
 
-(* one pair against one universe: [a==b; b==a; hash keys equal; matches of a; matches of b] *)
-Definition run_pair (univ : N -> list subj) (i : cfg * restr * restr * N) : val :=
-  let '(c, a, b, u) := i in
-  VL [VB (r_eq c a b); VB (r_eq c b a); VB (hk_eq c a b);
+(* one pair against one universe: [a==b; b==a; hash(a)==hash(b); matches of a; matches of b].
+   Hash VALUES are the implementation's business: equal keys must give equal hashes (that is what the
+   theorems need), while two different keys may collide — so where the keys differ the implementation's
+   own answer [impl_heq] is echoed and never counts as a disagreement. *)
+Definition run_pair (univ : N -> list subj) (i : cfg * restr * restr * N * bool) : val :=
+  let '(c, a, b, u, impl_heq) := i in
+  VL [VB (r_eq c a b); VB (r_eq c b a); VB (if hk_eq c a b then true else impl_heq);
       VBs (map (rmatch rx_lit a) (univ u)); VBs (map (rmatch rx_lit b) (univ u))].
 
 (* the same pair in another hashed state: [a==b; b==a] *)
